@@ -27,7 +27,7 @@ def _sh():
     if not hasattr(_tl, "stack"):
         _tl.stack = []  # list of tuples of dict ids
         _tl.flat = False
-        _tl.path = None
+        _tl.paths = []  # '?' leaf positions this thread has entered and not left (innermost last)
     return _tl
 
 
@@ -92,28 +92,33 @@ def attach():
     def get_treepath_memo(*a, **k):
         sh = _sh()
         counters["get_path"] += 1
+        mine = sh.paths[-1] if sh.paths else None
         try:
             out = orig["get_treepath_memo"](*a, **k)
         except BaseException:
-            if sh.path is not None:
-                _viol("ownership", f"get_treepath_memo raised although this thread set label {sh.path!r}")
+            if mine is not None and mine not in ("<unknown>", "<nested>"):
+                _viol("ownership", f"get_treepath_memo raised although this thread is at leaf position {mine!r}")
             raise
-        if sh.path != "<unknown>" and out != sh.path:
-            _viol("ownership", f"get_treepath_memo returned {out!r} but this thread set {sh.path!r}")
+        if mine not in ("<unknown>", "<nested>") and out != mine:
+            _viol("ownership", f"get_treepath_memo returned {out!r} but this thread set {mine!r}")
         return out
 
     def set_treepath_memo(*a, **k):
         r = orig["set_treepath_memo"](*a, **k)
         # what the accessor hands out right now is what this thread "stored" - never the
-        # representation kept inside the storage (which a refactoring is free to change)
+        # representation kept inside the storage (which a refactoring is free to change).
+        # Inside a second structured PyTree the accessor refuses to answer: "<nested>".
+        sh = _sh()
         try:
-            _sh().path = orig["get_treepath_memo"]()
+            sh.paths.append(orig["get_treepath_memo"]())
         except Exception:
-            _sh().path = "<unknown>"
+            sh.paths.append("<nested>" if sh.paths else "<unknown>")
         return r
 
     def clear_treepath_memo(*a, **k):
-        _sh().path = None
+        sh = _sh()
+        if sh.paths:
+            sh.paths.pop()
         return orig["clear_treepath_memo"](*a, **k)
 
     def get_treeflatten_memo(*a, **k):
